@@ -4,3 +4,71 @@
 
 pub use crate::segments::{CommitLog, Position, Storage};
 pub use crate::link::network::Network;
+
+// ---------------------------------------------------------------- router stepping hooks
+
+pub use crate::protocol;
+pub use crate::router::iobufs::{Incoming, Outgoing};
+pub use crate::router::shared_subs::Strategy;
+pub use crate::router::{
+    Ack, Connection, DataRequest, Event, Forward, Notification, ShadowRequest,
+    MAX_CHANNEL_CAPACITY, MAX_SCHEDULE_ITERATIONS,
+};
+pub use crate::{Router, RouterConfig, SegmentConfig};
+
+use std::cell::RefCell;
+use std::collections::VecDeque;
+use std::sync::Arc;
+
+use parking_lot::Mutex;
+
+/// Everything `LinkBuilder::build` hands to the router, created without blocking on the
+/// router thread: the `Event::Connect` to inject plus the link-side ends of the buffers.
+pub struct LinkParts {
+    pub event: Event,
+    pub incoming: Arc<Mutex<VecDeque<protocol::Packet>>>,
+    pub outgoing: Arc<Mutex<VecDeque<Notification>>>,
+    pub wake: flume::Receiver<()>,
+}
+
+pub fn new_link(
+    client_id: &str,
+    clean: bool,
+    dynamic_filters: bool,
+    topic_alias_max: u16,
+    last_will: Option<protocol::LastWill>,
+    last_will_properties: Option<protocol::LastWillProperties>,
+) -> LinkParts {
+    let mut connection = Connection::new(None, client_id.to_owned(), clean, dynamic_filters);
+    connection
+        .last_will(last_will, last_will_properties)
+        .topic_alias_max(topic_alias_max);
+    let incoming = Incoming::new(connection.client_id.to_owned());
+    let (outgoing, wake) = Outgoing::new(connection.client_id.to_owned());
+    let outgoing_buffer = outgoing.buffer();
+    let incoming_buffer = incoming.buffer();
+    LinkParts {
+        event: Event::Connect {
+            connection,
+            incoming,
+            outgoing,
+        },
+        incoming: incoming_buffer,
+        outgoing: outgoing_buffer,
+        wake,
+    }
+}
+
+thread_local! {
+    static ORACLE: RefCell<Vec<String>> = RefCell::new(Vec::new());
+}
+
+/// Recorder for the choices the router makes that depend on `HashMap` iteration order
+/// or on `thread_rng` (pushed to only under this cfg; read by the harness).
+pub(crate) fn record(line: String) {
+    ORACLE.with(|o| o.borrow_mut().push(line));
+}
+
+pub fn take_oracle() -> Vec<String> {
+    ORACLE.with(|o| std::mem::take(&mut *o.borrow_mut()))
+}
